@@ -408,7 +408,7 @@ fn check_async(p: &Prepared, code: &str) -> V {
     if let Some(d) = first_diff(&p.canon, &got) {
         return bad(format!("async-read-{code}-differs-from-sync"), d);
     }
-    // async writer: it has no shutdown/flush, so all that can be observed is what reaches the sink
+    // async writer
     let (f, k) = fmt_of(code);
     let out = g(&format!("async-write-{code}"), {
         std::panic::AssertUnwindSafe(|| {
@@ -419,6 +419,7 @@ fn check_async(p: &Prepared, code: &str) -> V {
                 for r in &recs {
                     w.write_record(&p.header, *r).await?;
                 }
+                w.shutdown().await?;
                 drop(w);
                 let b = sink.0.lock().unwrap().clone();
                 Ok::<_, io::Error>(b)
@@ -432,8 +433,8 @@ fn check_async(p: &Prepared, code: &str) -> V {
     match check_stream(p, code, &out, "c") {
         Ok(()) => Ok(()),
         Err((tag, d)) => {
-            // cause re-derived from the input: the async variant writer offers no way to flush its
-            // BufWriter / finish its BGZF stream, so the sink holds a strict prefix of the stream
+            // cause re-derived from the input: after shutdown the sink holds a strict prefix of the
+            // stream (BufWriter not flushed / BGZF stream not finished)
             let complete = g("write", std::panic::AssertUnwindSafe(|| write_generic_as(f, k, &p.header, &recs)))?.unwrap_or_default();
             if out.len() < complete.len().max(1) && (k.is_some() || complete.starts_with(&out)) {
                 bad("async-variant-writer-cannot-finish", format!("{code}: {} of about {} bytes reached the sink ({tag})", out.len(), complete.len()))
